@@ -1,7 +1,7 @@
 (* Every call of the full program language returns only well-formed arrays; hence every array reachable by any finite
    sequence of the modelled operations is well formed (C01). *)
 From ArrRs Require Import Index Index_proofs Lists_proofs Axis Axis_proofs Reshape_proofs Prog Prog_proofs Broadcast Broadcast_proofs
-  Lift Lift_proofs Split Reduce Reduce_proofs Sort Join Join_proofs Reorder Reorder_proofs Edit Edit_proofs Create ProgFull.
+  Lift Lift_proofs Split Reduce Reduce_proofs Sort Join Join_proofs Reorder Reorder_proofs Edit Edit_proofs Create ProgFull Linalg Products_wf.
 
 Section ProgFullProofs.
 Context {T : Type} (dflt zero one : T) (is_zero : T -> bool) (ltb eqb : T -> T -> bool).
@@ -161,6 +161,12 @@ Proof.
   - fone H. now apply new_wf in E.
   - fone H. now apply new_wf in E.
   - fone H. now apply new_wf in E.
+  - fone H. do 2 inv_bind E. now apply vdot_wf in E.
+  - fone H. do 2 inv_bind E. now apply matmul_wf in E.
+  - fone H. do 2 inv_bind E. now apply outer_wf in E.
+  - fone H. do 2 inv_bind E. now apply inner_wf in E.
+  - fone H. do 2 inv_bind E. now apply dot_wf in E.
+  - inv_bind H. eapply broadcast_arrays_wf; [|exact H]. eapply operands_wf; eauto.
 Qed.
 
 Lemma fstep_wf env c : Forall wf env -> Forall wf (fstep dflt zero one is_zero ltb eqb env c).
